@@ -1,12 +1,16 @@
 package harness
 
 import (
+	"bytes"
 	"context"
 	"encoding/json"
 	"errors"
 	"fmt"
+	"io"
+	"log/slog"
 	"sort"
 	"strings"
+	"sync"
 	"time"
 
 	bs "github.com/danthegoodman1/bloomsearch"
@@ -111,6 +115,17 @@ type queryRec struct {
 }
 
 var errBadRowValue = make(chan int) // json.Marshal rejects channel values
+
+type lockedWriter struct {
+	mu sync.Mutex
+	w  io.Writer
+}
+
+func (l *lockedWriter) Write(p []byte) (int, error) {
+	l.mu.Lock()
+	defer l.mu.Unlock()
+	return l.w.Write(p)
+}
 
 func genLifeWorkload(w *Tape, variant string) *lifeWorkload {
 	wl := &lifeWorkload{Variant: variant}
@@ -666,6 +681,13 @@ func RunLife(r *Run, variant string) {
 		cfg.PartitionFunc = partitionByP
 	}
 	cfg.MinMaxIndexes = []string{"n"}
+	var logBuf bytes.Buffer
+	if variant == "logger" {
+		// Control class for C27: with a Logger configured the same paths do log (to the
+		// logger, never to stdout/stderr), so the silence of the other classes is not vacuous.
+		cfg.Logger = slog.New(slog.NewTextHandler(&lockedWriter{w: &logBuf}, &slog.HandlerOptions{Level: slog.LevelDebug}))
+		defer func() { r.ProbeN("c27.logger-bytes", logBuf.Len()) }()
+	}
 	st.cfg = cfg
 	st.disk = NewSimDisk(r)
 	st.disk.NoAbort = wl.NoAbort
